@@ -48,6 +48,13 @@ func buildLazyWire(r *sim.Rng, typ string, depth, size int, intensity int) ([]by
 	var st gen.DenormStats
 	if intensity > 0 {
 		if t, ok := gen.ParseWire(m.ProtoReflect().Descriptor(), w); ok {
+			if r.Chance(1, 4) {
+				// many separate runs of several lazy fields (concatenated deltas): a long lazy index, out of order
+				if gen.ManyRuns(r, t, r.Range(5, 9)) > 0 {
+					st.NonContiguous++
+					st.LazyTouched++
+				}
+			}
 			gen.Denormalise(r, t, intensity, &st)
 			w = t.Encode()
 		}
